@@ -105,6 +105,7 @@ Section Facts.
   Hypothesis F_tick : UDP_TICK_CLOSES_REVERSED_KEY = true.
   Hypothesis F_open : UDP_FAILED_OPEN_FORGETS_FLOW = true.
   Hypothesis F_send : UDP_SEND_ERROR_DROPS_DATAGRAM = true.
+  Hypothesis F_err : UDP_READ_ERRORS_REMOVE_THE_FLOW = true.
 
   Lemma tick_fold_inv expired : forall s,
     UInv s ->
@@ -186,7 +187,7 @@ Section Facts.
         * cbn [fst]. apply UInv_update; assumption.
       + cbn [fst]. apply UInv_update; assumption.
     - (* socket error *)
-      destruct (lookup m (fwd s)); cbn [fst]; [apply UInv_remove_both; exact I|exact I].
+      destruct (lookup m (fwd s)); cbn [fst]; [rewrite F_err; apply UInv_remove_both; exact I|exact I].
     - (* timer tick *)
       cbn [fst]. apply tick_fold_inv. exact I.
   Qed.
@@ -359,7 +360,8 @@ Proof.
         try apply nodup_remove; try apply nodup_insert; assumption.
     + cbn [fst]. constructor; cbn [set_pipe pipe fwd]; [apply nodup_insert|]; assumption.
   - destruct (lookup m (fwd s)); cbn [fst]; [|exact K].
-    constructor; cbn [pipe fwd]; apply nodup_remove; assumption.
+    constructor; cbn [pipe fwd]; [apply nodup_remove; assumption|].
+    destruct UDP_READ_ERRORS_REMOVE_THE_FLOW; [apply nodup_remove|]; assumption.
   - cbn [fst]. apply tick_fold_kinv. exact K.
 Qed.
 
@@ -393,6 +395,7 @@ Section Confined.
   Hypothesis F_tick : UDP_TICK_CLOSES_REVERSED_KEY = true.
   Hypothesis F_open : UDP_FAILED_OPEN_FORGETS_FLOW = true.
   Hypothesis F_send : UDP_SEND_ERROR_DROPS_DATAGRAM = true.
+  Hypothesis F_err : UDP_READ_ERRORS_REMOVE_THE_FLOW = true.
 
   Lemma other_flows_untouched T s o m m' :
     UInv s -> op_flow o = Some m -> m <> m' ->
@@ -423,7 +426,7 @@ Section Confined.
         * rewrite lookup_insert_other by exact Hne. split; reflexivity.
       + cbn [fst set_pipe pipe fwd]. rewrite lookup_insert_other by exact Hne. split; reflexivity.
     - destruct (lookup m (fwd s)); cbn [fst pipe fwd]; [|split; reflexivity].
-      rewrite !lookup_remove_other by exact Hne. split; reflexivity.
+      rewrite F_err. rewrite !lookup_remove_other by exact Hne. split; reflexivity.
   Qed.
 
   (* what a single operation does to its own flow *)
@@ -464,11 +467,11 @@ Section Confined.
     UInv s -> has m (fwd (fst (ustep T s (Tick now)))) = true ->
     exists c, lookup m (pipe (fst (ustep T s (Tick now)))) = Some c /\ now - T <= u_la c.
   Proof.
-    intros I H. pose proof (ustep_inv F_tick F_open F_send T s (Tick now) I) as [A' B' _ _].
+    intros I H. pose proof (ustep_inv F_tick F_open F_send F_err T s (Tick now) I) as [A' B' _ _].
     rewrite <- B' in H. unfold has in H.
     destruct (lookup m (pipe (fst (ustep T s (Tick now))))) as [c|] eqn:L; [|discriminate].
     exists c. split; [reflexivity|].
     apply lookup_in in L. destruct I as [A _ _ _].
-    first [apply (expiry_s F_tick T s now (m, c)); assumption | apply (expiry_s F_tick F_open F_send T s now (m, c)); assumption | apply (expiry_s F_tick F_open T s now (m, c)); assumption].
+    first [apply (expiry_s F_tick T s now (m, c)); assumption | apply (expiry_s F_tick F_open F_send F_err T s now (m, c)); assumption | apply (expiry_s F_tick F_open F_send T s now (m, c)); assumption | apply (expiry_s F_tick F_open T s now (m, c)); assumption].
   Qed.
 End Confined.
